@@ -103,3 +103,17 @@ def c11(res: CheckResult) -> None:
               list(F.fam_fault(res.tier, rng)), ic, require_outcomes=["ret", "Violation", "KI", "Exception"])
     call_unit(res, "cancellation / close at every suspension point of an async call, then a probe",
               list(F.fam_cancel(res.tier, rng)), ic, require_outcomes=["ret", "Cancelled"])
+
+
+@check("C12")
+def c12(res: CheckResult) -> None:
+    from icv.checks_call import conc_unit
+    ic = C.load_icontract()
+    rng = random.Random(res.seed)
+    res.assumptions = COMMON_ASSUMPTIONS + [
+        "interleavings are exhaustive at the granularity of library/user crossings (a turn is silent* ; event)"]
+    nsim = 12 if res.tier == "quick" else 120
+    conc_unit(res, "thread-like tasks: 2-3 concurrent calls x context modes x all interleavings",
+              list(F.fam_conc(res.tier, rng, False)), ic, "thread", nsim)
+    conc_unit(res, "asyncio-like tasks: 2-3 concurrent async calls x context modes x all suspension interleavings",
+              list(F.fam_conc(res.tier, rng, True)), ic, "async", nsim)
